@@ -138,9 +138,11 @@ def _inv(st):
         probe = cat.at(z3.Int("probe"))
         trig = [probe.decl()] if z3.is_app(probe) and probe.num_args() == 1 and probe.decl().kind() == z3.Z3_OP_UNINTERPRETED else []
         return [("pos", And(I(pos) >= st.pos0, I(pos) <= st.flen)),
-                ("count", And(I(cl.count) >= 0, Implies(I(cl.count) == 0, I(cat.length) == 0))),
+                ("count", And(I(cl.count) >= 0, (I(cl.count) == 0) == (I(cat.length) == 0))),
                 ("length", And(sfx >= 0, Implies(Not(fin), sfx == 0), Implies(fin, And(I(pos) == st.flen, sfx >= st.mk, sfx <= 1 + st.mk)))),
                 ("content", Forall(lambda j: Implies(in_range(j, taken), cat.at(j) == U(st, j)), triggers=trig)),
+                ("well-formed input: at end of file a non-empty remainder holds a complete entry (X3a carried through the loop)",
+                 Implies(And(fin, I(cat.length) > 0), B(ip.to_bool(env.vars["complete_entry_found"])))),
                 ("made_buffer", env.vars.get("made_buffer") is None)]
     return inv
 
@@ -231,8 +233,9 @@ def _mk(do_prepend, marker):
                     raises={"FormatException": lambda ctx, st: [], "Exception": lambda ctx, st: []},
                     dropped=["docstring", "commented-out code", "logger calls"], concretize=_replay_lost_tail,
                     canaries=[("short read test", "self._is_finished = bytes_read < min_chunk_size", "self._is_finished = bytes_read <= min_chunk_size", lambda: _R()._get_buffer),
+                              ("tail off by one", "self._prepend = chunk[buff.size:]", "self._prepend = chunk[buff.size + 1:]") if do_prepend else
                               ("seek off by one", "self._file_obj.seek(buff.size - chunk.size, 1)", "self._file_obj.seek(buff.size - chunk.size + 1, 1)"),
-                              ("tail off by one", "self._prepend = chunk[buff.size:]", "self._prepend = chunk[buff.size + 1:]")])
+                              ("pending tail dropped at end of file", "if not temp_chunks or already_at_end:", "if True:")])
 
 
 seek_plain, seek_marker = _mk(False, False), _mk(False, True)
